@@ -510,16 +510,18 @@ func fairPick(r *run, pf []string, before, after *scheduler.VerifState, pq, sc i
 	}
 
 	root := c.build(&qb.RootInvocation)
-	done := map[*fnode]bool{}
-	for _, p := range completedPaths {
-		root.walk(p, false, func(n *fnode) {
-			if !done[n] {
-				done[n] = true
-				n.exec--
-			}
-		})
-	}
 	now := after.Now.Unix()
+	// what the segment did to the tree before the decision: decrementExecutingWorkersCount for the
+	// operation of the completed task (Model/FairDyn.lean applies it, including the heap fixes and
+	// the refresh of the cached priorities)
+	pre, nPre := "", 0
+	if completion {
+		if len(completedPaths) != 1 {
+			fairCount["pick-skipped-completed-task-with-several-operations"]++
+			return
+		}
+		pre, nPre = fmt.Sprintf(" dec %s %d", intsSp(completedPaths[0]), now), 1
+	}
 	var b strings.Builder
 	fmt.Fprintf(&b, "pick %d L %d", now, len(qb.StickinessLimits))
 	for _, l := range qb.StickinessLimits {
@@ -529,7 +531,7 @@ func fairPick(r *run, pf []string, before, after *scheduler.VerifState, pq, sc i
 	for _, s := range starts {
 		fmt.Fprintf(&b, " %d", s)
 	}
-	fmt.Fprintf(&b, " K %s T", intsSp(lastKeys))
+	fmt.Fprintf(&b, " K %s U %d%s T", intsSp(lastKeys), nPre, pre)
 	root.serialise(&b)
 	req := b.String()
 	out, err := fairDrv.Ask(req)
@@ -582,7 +584,7 @@ func fairPick(r *run, pf []string, before, after *scheduler.VerifState, pq, sc i
 		r.failf("violation", "C04", "C04.pick_refines_spec", "%s, but the documented policy admits only %s (operation/levels of stickiness retained)%s; pre-decision snapshot: %s", desc, kv["spec"], extra, req)
 		return
 	}
-	if !completion {
+	{
 		// (pending: a pick outside the documented set later in this history is the better report)
 		if kv["wf"] != "1" {
 			r.pendf("mismatch", "C04", "Fair correspondence: snapshot well-formed (Inv.wf: queuedChildren = children with queued work, heap roots minimal for the exact order)", "%s: the pre-decision snapshot is not well-formed: %s", desc, req)
@@ -593,7 +595,7 @@ func fairPick(r *run, pf []string, before, after *scheduler.VerifState, pq, sc i
 		}
 	}
 	// the tree afterwards: incrementExecutingWorkersCount, then removeQueuedFromInvocation, for a task with one operation
-	if !completion && len(ta.Operations) == 1 && (wb == nil || wb.CurrentTaskOperation == "") {
+	if len(ta.Operations) == 1 {
 		p := pickedPaths[0]
 		idx := -1
 		root.walk(p, false, func(*fnode) {})
@@ -611,8 +613,8 @@ func fairPick(r *run, pf []string, before, after *scheduler.VerifState, pq, sc i
 			}
 		}
 		if idx >= 0 {
-			upd := fmt.Sprintf("inc %s %d deq %s %d", intsSp(p), now, intsSp(p), idx)
-			fairDynCompare(r, c, "pick", upd, 2, root, &qa.RootInvocation)
+			upd := fmt.Sprintf("%sinc %s %d deq %s %d", strings.TrimPrefix(pre+" ", " "), intsSp(p), now, intsSp(p), idx)
+			fairDynCompare(r, c, "pick", upd, nPre+2, root, &qa.RootInvocation)
 		}
 	}
 	// stickiness bookkeeping: levels below `retained` keep their starting time, the others restart now
